@@ -321,6 +321,31 @@ def fixed(ctx, o):
           and all(expand(rhs_i[k] + region_integrands(l.expr, m)[k]) == 0 for k in rhs_i))
     if not ok:
         o.fail('corpus:newton', 'NewtonIteration(l, u) is not (linearize(l, u), -l)')
+    # an integral that does not depend on the field, on another region, listed with the field-dependent one:
+    # its derivative vanishes and the others stay on THEIR regions (seeded change C09-6 shifted them)
+    xs = w.coords
+    for fc in w.faces[:2]:
+        o.evaluations += 1
+        l2 = m['LinearForm'](v, m['integral'](w.domain, g) - m['integral'](fc, sympy.cos(sum(xs)) * v))
+        try:
+            got = region_integrands(m['linearize'](l2, u, trials=du).expr, m)
+            ok2 = set(got) == set(ref_i) and all(expand(got[k] - ref_i[k]) == 0 for k in ref_i)
+        except Exception as ex:
+            ok2 = False
+            got = type(ex).__name__
+        if not ok2:
+            o.fail('corpus:field-independent-integral', 'linearize(int_D g(u) - int_%s cos(..)*v) is %s, expected the derivative of the domain integral on the domain only' % (fc, str(got)[:300]))
+    # Newton iteration with a listed field that does not occur in the form: the other fields are still
+    # perturbed along THEIR trial functions (seeded change C09-5 dropped the field but not its trial)
+    o.evaluations += 1
+    try:
+        nt2 = m['NewtonIteration'](l, [w.p, u], trials=[w.dp, du])
+        got = region_integrands(nt2.lhs.expr, m)
+        ok3 = set(got) == set(ref_i) and all(expand(got[k] - ref_i[k]) == 0 for k in ref_i)
+    except Exception as ex:
+        ok3, got = False, type(ex).__name__
+    if not ok3:
+        o.fail('corpus:newton-absent-field', 'NewtonIteration(l, [p, u], trials=[dp, du]) with p absent from l has lhs %s, expected linearize(l, u, trials=du)' % (str(got)[:300],))
     # open findings (see known_findings.json)
     try:
         m['linearize'](m['LinearForm'](v, m['integral'](w.domain, f * v)), u, trials=du)
